@@ -109,6 +109,18 @@ def run(prop, tier, seed, replay=None):
                               x["event"].get("spd"), x["event"].get("kind"), x["event"].get("n")),
                            "instance": {"event": x["event"]}, "detail": {"runner": "trace-matrix", "kind": x["event"].get("kind")}})
     c = dict(s1["counters"]); c.update(s2["counters"])
+    if prop == "C16":
+        # "... neither by decompose_for_tropical nor through a sample": samples with the stability test on, corner points included
+        from . import p_sample
+        rpath, rruns, rst, rn = p_sample.gen_routing(tier, wd, seed)
+        s3 = core.mt("replay-sample", rpath, os.path.join(wd, "sum3.json"), seed, {"points": 8 if tier == "quick" else 30, "boundary": 0, "stab_all": 1})
+        violations += [v for v in s3["violations"] if v["property"] == "C16"]
+        c["samples_with_stability_test_ok"] = s3["counters"].get("ok_samples_with_stability_test", 0)
+        c["samples_unstable"] = s3["counters"].get("outcome_ErrUnstable", 0)
+        c["samples_zerodet"] = s3["counters"].get("outcome_ErrZeroDet", 0)
+        c["violations_C16"] = c.get("violations_C16", 0) + s3["counters"].get("violations_C16", 0)
+        if c["samples_with_stability_test_ok"] < 500:
+            raise core.ToolError("vacuity guard: only %d samples with the stability test on" % c["samples_with_stability_test_ok"])
     cov = {
         "states": r.distinct + tstates, "transitions": r.generated,
         "traces_validated_against_impl": s1["evaluations"] + s2["evaluations"] - len(rej),
